@@ -65,6 +65,21 @@ func (e *Engine) propertyRoots(prop string) []string {
 			}
 		}
 	}
+	// package initialisers whose global clauses serve the property
+	for _, g := range e.lib.Globals {
+		act := len(g.Clause.Props) == 0 || contains(g.Clause.Props, prop)
+		for _, d := range propDeps[prop] {
+			if contains(g.Clause.Props, d) {
+				act = true
+			}
+		}
+		if act && len(g.Clause.Props) > 0 {
+			k := g.Pkg + ".init"
+			if !contains(out, k) {
+				out = append(out, k)
+			}
+		}
+	}
 	if extra, ok := extraRoots[prop]; ok {
 		for _, k := range extra {
 			if !contains(out, k) {
@@ -74,6 +89,42 @@ func (e *Engine) propertyRoots(prop string) []string {
 	}
 	sort.Strings(out)
 	return out
+}
+
+// propertyRootsExact: functions with a clause tagged exactly with the given (group) tag.
+func (e *Engine) propertyRootsExact(tag string) []string {
+	var out []string
+	for _, k := range e.lib.sortedContractKeys() {
+		ct := e.lib.Contracts[k]
+		if ct.Trusted {
+			continue
+		}
+		tagged := false
+		for _, c := range ct.Ensures {
+			if contains(c.Props, tag) {
+				tagged = true
+			}
+		}
+		for _, l := range ct.Loops {
+			for _, c := range l.Invs {
+				if contains(c.Props, tag) {
+					tagged = true
+				}
+			}
+		}
+		if tagged {
+			out = append(out, k)
+		}
+	}
+	return out
+}
+
+// propGroups: secondary proof groups of a property.  Clauses tagged with a group
+// name are proved in a separate run in which they (and the property's own
+// clauses) are available as hypotheses; the property's main run does not see them.
+// This keeps quantifier-heavy auxiliary invariants from polluting the other proofs.
+var propGroups = map[string][]string{
+	"C04": {"C04b"},
 }
 
 // extraRoots: whole-cone properties list their entry points explicitly (filled by property definitions).
@@ -136,27 +187,70 @@ func runProperty(eng *Engine, prop, tier string, opts solveOpts, evidence, repla
 		fmt.Fprintf(os.Stderr, "govc: no contract clause is tagged with %s\n", prop)
 		return 2
 	}
-	units := map[string]*Unit{}
+	var obls []*Oblig
+	assumed := map[string]bool{}
+	inlined := map[string]bool{}
+	modes := map[string]string{}
 	var order []string
-	work := append([]string(nil), roots...)
 	var loadErr []string
+	groups := append([]string{prop}, propGroups[prop]...)
+	for gi, grp := range groups {
+	gprop := grp
+	groupRoots := roots
+	if gi > 0 {
+		groupRoots = eng.propertyRootsExact(grp)
+	}
+	units := map[string]*Unit{}
+	var gorder []string
+	work := append([]string(nil), groupRoots...)
+	// bit-vector mode functions whose int-mode exports are used: their own (C14) contract is part of the cone
+	bvProp := map[string]string{}
 	for len(work) > 0 {
 		k := work[0]
 		work = work[1:]
 		if _, done := units[k]; done {
 			continue
 		}
-		u, err := eng.verifyFunctionFor(k, prop)
+		p := gprop
+		if bp, ok := bvProp[k]; ok {
+			p = bp
+		}
+		if gi > 0 && p != gprop {
+			continue // already covered by the main group
+		}
+		u, err := eng.verifyFunctionFor(k, p)
 		if err != nil {
 			loadErr = append(loadErr, err.Error())
 			units[k] = nil
 			continue
 		}
 		units[k] = u
-		order = append(order, k)
+		gorder = append(gorder, k)
 		for _, c := range sortedKeys(u.called) {
 			if _, done := units[c]; !done {
 				work = append(work, c)
+			}
+		}
+		for _, c := range sortedKeys(u.bvCallees) {
+			if _, done := units[c]; !done {
+				bvProp[c] = "C14"
+				work = append(work, c)
+			} else if units[c] != nil && units[c].prop != "C14" && prop != "C14" {
+				// verified earlier as an ordinary callee: redo with its own contract active
+				delete(units, c)
+				for i, o := range gorder {
+					if o == c {
+						gorder = append(gorder[:i], gorder[i+1:]...)
+						break
+					}
+				}
+				bvProp[c] = "C14"
+				work = append(work, c)
+			}
+		}
+		for _, gp := range sortedKeys(u.globalsUsed) {
+			if _, done := units[gp+".init"]; !done {
+				work = append(work, gp+".init")
 			}
 		}
 	}
@@ -166,12 +260,11 @@ func runProperty(eng *Engine, prop, tier string, opts solveOpts, evidence, repla
 		}
 		// a contract that no longer binds/evaluates against the code is an undischarged obligation
 	}
-	var obls []*Oblig
-	assumed := map[string]bool{}
-	inlined := map[string]bool{}
-	modes := map[string]string{}
-	for _, k := range order {
+	for _, k := range gorder {
 		u := units[k]
+		if gi == 0 {
+			order = append(order, k)
+		}
 		mode := "int"
 		if u.so.bv {
 			mode = "bv"
@@ -193,8 +286,15 @@ func runProperty(eng *Engine, prop, tier string, opts solveOpts, evidence, repla
 			if !u.active(o.Props) {
 				continue
 			}
+			if gi > 0 && !contains(o.Props, gprop) {
+				continue // secondary proof group: only its own clauses
+			}
+			if gi > 0 {
+				o.Name = o.Name + "@" + gprop
+			}
 			obls = append(obls, o)
 		}
+	}
 	}
 	obls = append(obls, structural...)
 	obls = append(obls, eng.bridgeObligations(prop)...)
